@@ -6,10 +6,10 @@ use crate::prog::Walk;
 use crate::rng::Rng;
 
 fn storable_line(rng: &mut Rng) -> String {
-    match rng.below(14) {
+    match rng.below(15) {
         0 => format!("PRINT {}", rng.pick(&["007", ".5", "1.", "00.100", "123456789012345678901234567890", "0.000000000000000000001", "1e5", "3.14159265358979323846", "9007199254740993", "4.9406564584124654e-324", "1.7976931348623157", "100000000000000000000000", "0.1+0.2"])),
         1 => gen::data_statement(rng),
-        2 => format!("DATA {}", rng.pick(&["hello \"there\"", "\"a\" ", "1,,2", " , ", "\"\"", "x\"y\"z, w", "inf, nan, -0, 1e400", "\"unterminated", "a:PRINT 1", "\"q\":PRINT 2", "é, \"日本\"", "  spaced  out  ", "1 2 3", "-", "+5, -.5, 5."])),
+        2 => format!("DATA {}", rng.pick(&["hello \"there\"", "\"a\" ", "1,,2", " , ", "\"\"", "x\"y\"z, w", "inf, nan, -0, 1e400", "\"unterminated", "a:PRINT 1", "\"q\":PRINT 2", "é, \"日本\"", "\u{a0}\"x\"", "1,\u{3000}\"a,b\", END", "\x0b\"q, r\"", "\u{2003}\"em\" , \u{a0}7", "a\u{a0}, \u{a0}b", "  spaced  out  ", "1 2 3", "-", "+5, -.5, 5."])),
         3 => format!("REM{}", rng.pick(&["", " note", "  two  spaces ", ": not a colon \"", " é😀", "ARK"])),
         4 => format!("PRINT \"{}\"", rng.pick(&["", " ", "a  b", "REM x", "é", "x:y;z,w"])),
         5 => rng.pick(&["IFXTHENY", "FORI=1TO10STEP2", "ATOM=SCORE", "GOTO10", "GO TO 10", "X=A<=B<>C>=D", "X = A < = B", "NOTX", "PRINTNOTA", "LETTER=1", "? X;Y,Z", "NEXTI:RETURN", "ONE=TOTAL", "IF A THEN 100 ELSE 200"]).to_string(),
@@ -19,7 +19,13 @@ fn storable_line(rng: &mut Rng) -> String {
             let b = gen::simple_statement(rng);
             format!("{}:{}", a, b)
         }
-        10 => gen::long_numeral(rng),
+        10 => {
+            // every adjacency of relational characters
+            let n = rng.range(2, 4);
+            let ops: String = (0..n).map(|_| rng.pick(&["=", "<", ">", " "])).collect();
+            format!("X{}Y", ops)
+        }
+        12 => gen::long_numeral(rng),
         11 => format!("X = {}", gen::long_numeral(rng)),
         _ => gen::token_soup(rng),
     }
